@@ -16,7 +16,7 @@ open OdfModel OdfModel.Xml OdfModel.LoadSax OdfModel.Props.C04
 
 /-! ### `__fixXmlPart` (as of fix 4cb8050) -/
 
-/-- the document element's start tag (up to its first `>`) declares every requested prefix, with any white space
+/-- the document element's start tag (up to its first `>` outside quoted values) declares every requested prefix, with any white space
     in front of `xmlns:` and around `=` -/
 def DeclaresInRoot (x : Str) : Prop :=
   ∀ e, findRootEnd x 0 = some e → ∀ p ∈ requested, declares p (rootTagText x e) = true
@@ -106,20 +106,13 @@ theorem fix_w1_ok :
 /-- content.xml whose root tag has a literal `>` inside an attribute value in FRONT of the declaration of `meta` -/
 def w4 : Str := [60, 63, 120, 109, 108, 32, 118, 101, 114, 115, 105, 111, 110, 61, 39, 49, 46, 48, 39, 32, 101, 110, 99, 111, 100, 105, 110, 103, 61, 39, 85, 84, 70, 45, 56, 39, 63, 62, 10, 60, 111, 58, 100, 111, 99, 117, 109, 101, 110, 116, 45, 99, 111, 110, 116, 101, 110, 116, 32, 120, 109, 108, 110, 115, 58, 111, 61, 34, 117, 114, 110, 58, 111, 97, 115, 105, 115, 58, 110, 97, 109, 101, 115, 58, 116, 99, 58, 111, 112, 101, 110, 100, 111, 99, 117, 109, 101, 110, 116, 58, 120, 109, 108, 110, 115, 58, 111, 102, 102, 105, 99, 101, 58, 49, 46, 48, 34, 32, 120, 109, 108, 110, 115, 58, 120, 61, 34, 97, 62, 98, 34, 32, 120, 109, 108, 110, 115, 58, 109, 101, 116, 97, 61, 34, 117, 114, 110, 58, 109, 34, 62, 60, 111, 58, 98, 111, 100, 121, 62, 60, 117, 58, 112, 32, 120, 109, 108, 110, 115, 58, 117, 61, 34, 117, 34, 47, 62, 60, 47, 111, 58, 98, 111, 100, 121, 62, 60, 47, 111, 58, 100, 111, 99, 117, 109, 101, 110, 116, 45, 99, 111, 110, 116, 101, 110, 116, 62]
 
-/-- **known finding KF-C05-17, proved** (residual of 4cb8050): `w4` is a well-formed start tag (every attribute
-    named once, `xmlns:meta` declared), but the text up to the first `>` ends inside `xmlns:x="a>b"`; the
-    declaration of `meta` behind it is not seen and a second `xmlns:meta` is spliced in … -/
-theorem fix_finding_gt_in_value :
+/-- (was known finding KF-C05-17, repaired in 692b8c3) the root start tag now ends at the first `>` OUTSIDE a quoted
+    value: in `w4` the declaration of `meta` behind `xmlns:x="a>b"` is seen, nothing is declared twice. -/
+theorem fix_w4_ok :
     (rootAttrNames w4).Nodup ∧ sXmlnsMeta ∈ rootAttrNames w4 ∧
-    (rootAttrNames (fixXmlPart w4)).count sXmlnsMeta = 2 ∧ ¬ (rootAttrNames (fixXmlPart w4)).Nodup := by
+    (rootAttrNames (fixXmlPart w4)).Nodup ∧ (rootAttrNames (fixXmlPart w4)).count sXmlnsMeta = 1 ∧
+    (rootAttrNames (fixXmlPart w4)).length = 3 + 8 := by
   decide +kernel
-
-/-- … so every conforming parser rejects the patched text, `__loadxmlparts` prints and swallows the exception, and
-    the part is silently dropped: the document is what it was before, whatever the part contained. -/
-theorem fix_finding_gt_part_dropped (P : Str → Option (List Event)) (hP : RejectsDuplicateRootAttr P)
-    (member : Str) (l : Loaded) : loadText P member l w4 = l := by
-  unfold loadText
-  rw [hP _ fix_finding_gt_in_value.2.2.2]
 
 /-- content.xml with newline-separated declarations and the words ` xmlns:x` in a paragraph -/
 def w2 : Str := [60, 63, 120, 109, 108, 32, 118, 101, 114, 115, 105, 111, 110, 61, 39, 49, 46, 48, 39, 32, 101, 110, 99, 111, 100, 105, 110, 103, 61, 39, 85, 84, 70, 45, 56, 39, 63, 62, 10, 60, 111, 58, 100, 111, 99, 117, 109, 101, 110, 116, 45, 99, 111, 110, 116, 101, 110, 116, 10, 120, 109, 108, 110, 115, 58, 111, 61, 34, 117, 114, 110, 58, 111, 97, 115, 105, 115, 58, 110, 97, 109, 101, 115, 58, 116, 99, 58, 111, 112, 101, 110, 100, 111, 99, 117, 109, 101, 110, 116, 58, 120, 109, 108, 110, 115, 58, 111, 102, 102, 105, 99, 101, 58, 49, 46, 48, 34, 62, 60, 111, 58, 98, 111, 100, 121, 62, 60, 117, 58, 112, 10, 120, 109, 108, 110, 115, 58, 117, 61, 34, 117, 34, 62, 115, 97, 121, 32, 120, 109, 108, 110, 115, 58, 120, 60, 47, 117, 58, 112, 62, 60, 47, 111, 58, 98, 111, 100, 121, 62, 60, 47, 111, 58, 100, 111, 99, 117, 109, 101, 110, 116, 45, 99, 111, 110, 116, 101, 110, 116, 62]
